@@ -14,8 +14,9 @@ pid, srcdir, sid, wt, rnd, hist = sys.argv[1:7]
 extra = sys.argv[7:]
 env = dict(os.environ, WT=wt, JOBS=os.environ.get('JOBS', '8'))
 # the demo's build script defaults to the author's worktree; WT overrides it
-r = subprocess.run(['bash', os.path.join(VERIF, 'tools', 'confirm_mut.sh'), wt, srcdir], env=env, capture_output=True, text=True)
-print(r.stdout.strip()[-300:])
+if not (os.environ.get('SKIP_CONFIRM') and os.path.exists(os.path.join(srcdir, 'confirm.log')) and 'RESULT' in open(os.path.join(srcdir, 'confirm.log')).read()):
+    r = subprocess.run(['bash', os.path.join(VERIF, 'tools', 'confirm_mut.sh'), wt, srcdir], env=env, capture_output=True, text=True)
+    print(r.stdout.strip()[-300:])
 readme = open(os.path.join(srcdir, 'README.md')).read() if os.path.exists(os.path.join(srcdir, 'README.md')) else ''
 paras = [p.strip() for p in re.split(r'\n\s*\n', readme) if p.strip()]
 needs = [p for p in paras if re.search(r'manifest|needs|only (shows|happens)|tests (do not|never|miss)', p, re.I)]
